@@ -1,7 +1,7 @@
 """Property id -> check function."""
 import json
 
-from . import props_pool, props_router, props_plugins, props_relay, props_pause, props_shutdown, props_reload, props_prepared, props_params
+from . import props_pool, props_router, props_plugins, props_relay, props_pause, props_shutdown, props_reload, props_prepared, props_params, props_auth
 
 CHECKS = {
     'C01': props_pool.check,
@@ -18,6 +18,7 @@ CHECKS = {
     'C14': props_reload.check_c14,
     'C08': props_prepared.check_c08,
     'C12': props_params.check_c12,
+    'C09': props_auth.check_c09,
 }
 
 
